@@ -559,6 +559,11 @@ impl<'a> Pool<'a> {
             for _ in 0..self.rng.range(0, 3) {
                 fields.push(self.named_field());
             }
+            // `eat FOOD`: a single required word (an optional or repeated one would swallow the
+            // name of the next command)
+            if self.rng.chance(1, 3) {
+                fields.push(Spec::Item(self.pos_item(Strict::Any)));
+            }
             let mut opts = OptSpec::plain(Spec::Seq(fields));
             opts.descr = Some(format!("D{}-descr", id));
             cmds.push(Spec::Cmd(Box::new(CmdSpec {
